@@ -2,4 +2,4 @@ From Coq Require Import ExtrOcamlBasic.
 From HV Require Import Base.Res Base.Str Model.RemodelJson Gen.RemodelParams Model.Remodel.
 Extraction Language OCaml.
 Extraction "../ocaml/build/c17_model.ml"
-  force_types remodel parse_operations validate run_tables no_fixes all_fixes observed_order.
+  force_types remodel parse_operations validate run_tables no_fixes all_fixes observed_order read_table.
